@@ -80,6 +80,9 @@ func (p *Params) prepare() {
 		return
 	}
 	p.multiCts = map[int]bool{}
+	if !p.OneCommitTs {
+		return
+	}
 	first := map[int]string{}
 	for _, op := range p.Ops {
 		f := strings.Split(op, ":")
@@ -1244,7 +1247,10 @@ func (in *Inst) checkReads() {
 // containers the copies of the key's lock / write / default entries live (so that
 // distinct storage mechanisms get distinct signatures).
 func (in *Inst) placement(k string) string {
-	if in.P.Namespaced || in.nMaint == 0 {
+	// Only a mismatch that shows up right after a maintenance transition is about placement:
+	// requests write to the active memtable (always consulted first), and every state reached
+	// by a maintenance transition has already passed the state oracle.
+	if in.P.Namespaced || in.nMaint == 0 || !strings.HasPrefix(in.last, "maint:") {
 		return ""
 	}
 	shape := in.h.DB.VerifLSM().VerifShape(false)
@@ -1261,7 +1267,9 @@ func (in *Inst) placement(k string) string {
 				}
 				continue
 			}
-			if strings.HasPrefix(line, needle) && (len(out) == 0 || out[len(out)-1] != cur) {
+			// lock column: one internal key, so every copy is a version tie and is listed;
+			// data/write columns: container classes only
+			if strings.HasPrefix(line, needle) && (name == "l" || len(out) == 0 || out[len(out)-1] != cur) {
 				out = append(out, cur)
 			}
 		}
